@@ -42,3 +42,8 @@ func (k *PublicKey) VerifImage() []byte {
 	out := append([]byte{}, secp256k1.VerifPointImage(k.point)...)
 	return append(out, k.pointBytes...)
 }
+
+// VerifSplitKey builds a key object from a private scalar and an unrelated public-key object (C09: the nonce has a secret input).
+func VerifSplitKey(d *secp256k1.Scalar, pub *PublicKey) *PrivateKey {
+	return &PrivateKey{scalar: d, publicKey: pub}
+}
